@@ -80,7 +80,27 @@ func checkC17(c *Ctx) (int, error) {
 		add(cs, i%2 == 0)
 		c.ev.nontrivial(fmt.Sprintf("stress%d-%d", i, len(cs.Insts)))
 	}
-	c.ev.Rule = fmt.Sprintf("every interleaving of the I/O steps of 2 instances x 4 steps (70) and 3 x 3 (1680) from TLC, enforced by gated destinations/sources, on random mixes of flate/gzip/zlib Writers and Readers of all settings; plus %d free-running stress cases with 16-32 instances at GOMAXPROCS 1,2,4,16; half of all cases under the race detector; every instance's bytes and errors are compared with its solo run; distinct by (interleaving, instance mix)", nStress)
+	// cold starts: the very first use of the library in a process is concurrent (lazily initialised
+	// shared state); each such case runs in a worker process of its own
+	var cold []*CCase
+	nCold := 6
+	if c.Tier == "thorough" {
+		nCold = 24
+	}
+	for i := 0; i < nCold; i++ {
+		cs := &CCase{ID: fmt.Sprintf("C17-cold-%d", i), Family: "conc", Arch: c.Levels[i%len(c.Levels)], Procs: 16, Cold: true, Tag: "cold start"}
+		for k := 0; k < 12; k++ {
+			in := randomInstance(rng, true)
+			if k < 6 && in.Role == "writer" {
+				in.Set = accelSettings[(i+k)%len(accelSettings)]
+			}
+			cs.Insts = append(cs.Insts, in)
+		}
+		cold = append(cold, cs)
+		byID[cs.ID] = cs
+		c.ev.nontrivial(fmt.Sprintf("cold%d", i))
+	}
+	c.ev.Rule = fmt.Sprintf("every interleaving of the I/O steps of 2 instances x 4 steps (70) and 3 x 3 (1680) from TLC, enforced by gated destinations/sources, on random mixes of flate/gzip/zlib Writers (several streams per instance through Reset or new construction) and Readers (gzip with Latin-1 header fields) of all settings; cold-start cases whose first use of the library in the process is concurrent; plus %d free-running stress cases with 16-32 instances at GOMAXPROCS 1,2,4,16; half of all cases under the race detector; every instance's bytes and errors are compared with its solo run; distinct by (interleaving, instance mix)", nStress)
 	for _, cs := range raced[:minInt(2, len(raced))] {
 		c.ev.sample(map[string]interface{}{"schedule": cs.(*CCase).Schedule, "instances": len(cs.(*CCase).Insts), "procs": cs.(*CCase).Procs})
 	}
@@ -112,6 +132,21 @@ func checkC17(c *Ctx) (int, error) {
 		c.ev.Evaluations += len(part.cases)
 		c.logf("%s: %d cases executed and validated (%.1fs), %d violating events", part.name, len(part.cases), time.Since(t0).Seconds(), len(viols))
 	}
-	c.ev.Extra["race_detector_cases"] = len(raced)
+	for _, cs := range cold {
+		trace, err := c.Execute("c17-"+cs.ID, []Case{cs}, true)
+		if err != nil {
+			return 0, err
+		}
+		viols, n, err := c.Validate("InstTrace", "TV_Inst.cfg", trace, true)
+		if err != nil {
+			return 0, err
+		}
+		events += n
+		all = append(all, viols...)
+		c.ev.Traces++
+		c.ev.Evaluations++
+	}
+	c.logf("cold starts: %d cases, each in a process of its own under the race detector", len(cold))
+	c.ev.Extra["race_detector_cases"] = len(raced) + len(cold)
 	return c.Report(all, byID, "InstTrace", "TV_Inst.cfg")
 }
